@@ -279,6 +279,12 @@ func checkFontOnce(c *fontCase) string {
 		return msg
 	}
 	M := f.FontMatrix
+	// "the horizontal font-matrix scale" is M[0] whenever the matrix keeps
+	// horizontal advances horizontal or has no shear to correct (b*c == 0);
+	// for matrices with both off-diagonal entries the property does not say
+	// which number is meant, and only the agreement between the calls (per
+	// glyph, width map, fallback to .notdef) is checked
+	wnear := func(got, want float64) bool { return M[1]*M[2] != 0 || near(got, want) }
 	var boxes, pdfBoxes []rect.Rect
 	names := make([]string, 0, len(f.Glyphs))
 	for n := range f.Glyphs {
@@ -301,7 +307,7 @@ func checkFontOnce(c *fontCase) string {
 		if nd, ok := f.Glyphs[".notdef"]; ok {
 			want = nd.WidthX * M[0] * 1000
 		}
-		if w := widths[k]; w != f.GlyphWidthPDF(k) || !near(w, want) {
+		if w := widths[k]; w != f.GlyphWidthPDF(k) || !wnear(w, want) {
 			return fmt.Sprintf("WidthsMapPDF has an entry %q = %v for a name that is not a glyph of the font; GlyphWidthPDF gives %v, the fallback is %v", k, w, f.GlyphWidthPDF(k), want)
 		}
 	}
@@ -325,7 +331,7 @@ func checkFontOnce(c *fontCase) string {
 		}
 		pdfBoxes = append(pdfBoxes, wantPDF)
 		wantW := g.WidthX * M[0] * 1000
-		if got := f.GlyphWidthPDF(n); !near(got, wantW) {
+		if got := f.GlyphWidthPDF(n); !wnear(got, wantW) {
 			return fmt.Sprintf("glyph %q: GlyphWidthPDF = %v, want %v", n, got, wantW)
 		}
 		if w, ok := widths[n]; !ok || w != f.GlyphWidthPDF(n) {
@@ -348,6 +354,9 @@ func checkFontOnce(c *fontCase) string {
 		want := 0.0
 		if nd, ok := f.Glyphs[".notdef"]; ok {
 			want = nd.WidthX * M[0] * 1000
+		}
+		if _, ok := f.Glyphs[".notdef"]; ok && M[1]*M[2] != 0 {
+			want = f.GlyphWidthPDF(".notdef")
 		}
 		if got := f.GlyphWidthPDF(q); !near(got, want) {
 			return fmt.Sprintf("GlyphWidthPDF(%q) = %v for a missing glyph, want %v (.notdef or 0)", q, got, want)
@@ -493,7 +502,21 @@ func genGlyph(t *rapid.T) (*type1.Glyph, bool) {
 }
 
 func genMatrix(t *rapid.T) matrix.Matrix {
-	switch rapid.IntRange(0, 5).Draw(t, "matrix") {
+	switch rapid.IntRange(0, 8).Draw(t, "matrix") {
+	case 6:
+		// oblique (sheared) fonts: [a b c d tx ty] maps (x, y) to
+		// (a*x + c*y + tx, b*x + d*y + ty)
+		return matrix.Matrix{0.001, 0, 0.000212557, 0.001, 0, 0}
+	case 7:
+		// rotated by a quarter turn, or sheared the other way
+		if rapid.Bool().Draw(t, "rot") {
+			return matrix.Matrix{0, 0.001, -0.001, 0, 0, 0}
+		}
+		return matrix.Matrix{0.001, 0.0003, 0, 0.001, 0.05, 0}
+	case 8:
+		s := func() float64 { return float64(rapid.IntRange(-3000, 3000).Draw(t, "scale")) / 1e6 }
+		tr := func() float64 { return float64(rapid.IntRange(-500, 500).Draw(t, "translate")) / 1000 }
+		return matrix.Matrix{s(), s(), s(), s(), tr(), tr()}
 	case 0:
 		return matrix.Matrix{0.001, 0, 0, 0.001, 0, 0}
 	case 1:
@@ -514,7 +537,7 @@ func genMatrix(t *rapid.T) matrix.Matrix {
 func TestP1Font(t *testing.T) {
 	rec := ev.New("C19", "font")
 	defer rec.Finish(t)
-	rec.Rule("type1.Font values: 0-12 glyphs with or without .notdef; names with shared prefixes; encodings absent, shorter than 256, full, naming missing glyphs, the same glyph at several codes; command lists incl. empty, only moves, curves whose control points lie far outside the box of the end points, stray closepaths; axis-aligned font matrices incl. negative, zero and non-1/1000 scales and translations; queried names present and absent. Oracle: independent re-computation - GlyphList is a permutation of glyphs plus .notdef, starts with .notdef, then the encoded glyphs such that some choice of one code per glyph is strictly increasing, then the rest strictly increasing by name, length == NumGlyphs; glyph boxes = min/max over end points (through matrix x 1000 for the PDF variants, 1e-9 relative), zero for missing/empty glyphs; font boxes = union of the non-zero glyph boxes; widths = WidthX x M[0] x 1000, per-glyph call == width map exactly, .notdef width or 0 for absent names. Two values of five are then changed in place 1-4 times (encoding entries swapped, set or cleared; a glyph added, removed or altered; the font matrix scaled) and every query is repeated after each change: a value that was asked before must answer for what it holds now. Non-trivial: >= 3 glyphs, >= 1 encoded and >= 1 unencoded, >= 1 non-empty outline; distinct by font value.")
+	rec.Rule("type1.Font values: 0-12 glyphs with or without .notdef; names with shared prefixes; encodings absent, shorter than 256, full, naming missing glyphs, the same glyph at several codes; command lists incl. empty, only moves, curves whose control points lie far outside the box of the end points, stray closepaths; font matrices: axis-aligned incl. negative, zero and non-1/1000 scales and translations, oblique, rotated and general ones (all six entries drawn); queried names present and absent. Oracle: independent re-computation - GlyphList is a permutation of glyphs plus .notdef, starts with .notdef, then the encoded glyphs such that some choice of one code per glyph is strictly increasing, then the rest strictly increasing by name, length == NumGlyphs; glyph boxes = min/max over end points (through matrix x 1000 for the PDF variants, 1e-9 relative), zero for missing/empty glyphs; font boxes = union of the non-zero glyph boxes; widths = WidthX x M[0] x 1000 (for matrices with both off-diagonal entries non-zero, where 'the horizontal scale' is not one number, only the agreement of the calls), per-glyph call == width map exactly, .notdef width or 0 for absent names. Two values of five are then changed in place 1-4 times (encoding entries swapped, set or cleared; a glyph added, removed or altered; the font matrix scaled) and every query is repeated after each change: a value that was asked before must answer for what it holds now. Non-trivial: >= 3 glyphs, >= 1 encoded and >= 1 unencoded, >= 1 non-empty outline; distinct by font value.")
 	ev.SetupRapid(150000, 6000000)
 	rapid.Check(t, func(t *rapid.T) {
 		f := &type1.Font{FontInfo: &type1.FontInfo{FontName: "Q"}, Private: &type1.PrivateDict{}, Glyphs: map[string]*type1.Glyph{}}
